@@ -86,23 +86,16 @@ func explainInsertQuery(sb *strings.Builder, n *ast.InsertQuery, indent string, 
 	}
 
 	if n.Select != nil {
-		// For INSERT with SELECT, temporarily clear Format from the SELECT
-		// (FORMAT in INSERT belongs to INSERT, not SELECT, and shouldn't be output in EXPLAIN)
-		if swu, ok := n.Select.(*ast.SelectWithUnionQuery); ok {
-			for _, sel := range swu.Selects {
-				if sq, ok := sel.(*ast.SelectQuery); ok && sq.Format != nil {
-					savedFormat := sq.Format
-					sq.Format = nil
-					defer func() { sq.Format = savedFormat }()
-				}
-			}
-		}
+		// For INSERT with SELECT, render the SELECT without its Format
+		// (FORMAT in INSERT belongs to INSERT, not SELECT, and shouldn't be output in EXPLAIN).
+		// A copy is rendered; the caller's tree is not modified.
+		sel := withoutFormat(n.Select)
 		// If this INSERT has an inherited WITH clause (from WITH ... INSERT syntax),
 		// use the special explain function that outputs WITH at the end of each SelectQuery
 		if len(n.With) > 0 {
-			ExplainSelectWithInheritedWith(sb, n.Select, n.With, depth+1)
+			ExplainSelectWithInheritedWith(sb, sel, n.With, depth+1)
 		} else {
-			Node(sb, n.Select, depth+1)
+			Node(sb, sel, depth+1)
 		}
 	}
 
@@ -948,35 +941,37 @@ func explainExplainQuery(sb *strings.Builder, n *ast.ExplainQuery, indent string
 
 	// Check if inner statement has FORMAT clause - this should be output as child of Explain
 	// Also check for SETTINGS after FORMAT (these are at the EXPLAIN level, not part of the SELECT)
+	// The inner statement is rendered from a shallow copy with those parts removed, so that the
+	// caller's tree is never modified.
 	var format *ast.Identifier
 	var hasSettingsAfterFormat bool
-	var savedSettings []*ast.SettingExpr
+	stmt := n.Statement
 	if swu, ok := n.Statement.(*ast.SelectWithUnionQuery); ok {
+		swuCopy := *swu
+		swuCopy.Selects = append([]ast.Statement(nil), swu.Selects...)
 		// Check for union-level settings after format
 		if swu.SettingsAfterFormat && len(swu.Settings) > 0 {
 			hasSettingsAfterFormat = true
-			savedSettings = swu.Settings
-			swu.Settings = nil
-			defer func() { swu.Settings = savedSettings }()
+			swuCopy.Settings = nil
 		}
-		for _, sel := range swu.Selects {
+		for i, sel := range swu.Selects {
 			if sq, ok := sel.(*ast.SelectQuery); ok {
+				sqCopy := *sq
 				if sq.Format != nil {
 					format = sq.Format
-					// Temporarily nil out the format so it's not output by SelectWithUnionQuery
-					sq.Format = nil
-					defer func() { sq.Format = format }()
+					// Drop the format so it's not output by SelectWithUnionQuery
+					sqCopy.Format = nil
 				}
 				// Check for settings after format in the SelectQuery
 				if sq.SettingsAfterFormat && len(sq.Settings) > 0 && !hasSettingsAfterFormat {
 					hasSettingsAfterFormat = true
-					savedSettings = sq.Settings
-					sq.Settings = nil
-					defer func() { sq.Settings = savedSettings }()
+					sqCopy.Settings = nil
 				}
+				swuCopy.Selects[i] = &sqCopy
 				break
 			}
 		}
+		stmt = &swuCopy
 	}
 
 	// Count children: statement + format (if present) + settings (if present)
@@ -1003,7 +998,7 @@ func explainExplainQuery(sb *strings.Builder, n *ast.ExplainQuery, indent string
 		fmt.Fprintf(sb, "%s Set\n", indent)
 	}
 	// Output the statement
-	Node(sb, n.Statement, depth+1)
+	Node(sb, stmt, depth+1)
 	// Format comes after statement
 	if format != nil {
 		fmt.Fprintf(sb, "%s Identifier %s\n", indent, format.Parts[len(format.Parts)-1])
